@@ -183,7 +183,18 @@ func sweepPost(c *Check) {
 // listed as an unconfirmed candidate.
 func monitorFinding(c *Check, jr *JobResult, p *PathRec, what string) {
 	conf := "yes"
-	if usesUnreplayable(p.Stubs) {
+	st := p.Stubs
+	if _, ok := st["uf:x509.CheckSignatureFromKey"]; ok {
+		// handing the signature to the verification routine is itself the observation (C09); that stub does
+		// not make the path unrealisable
+		st = map[string]int{}
+		for k, v := range p.Stubs {
+			if k != "uf:x509.CheckSignatureFromKey" {
+				st[k] = v
+			}
+		}
+	}
+	if usesUnreplayable(st) {
 		conf = "no"
 	}
 	c.Findings = append(c.Findings, &Finding{Key: jr.Job.Label + ": " + what, Msg: what, Func: jr.Job.Func, Pkg: jr.Job.Pkg, Kind: "side", Confirmed: conf, Site: p.Site,
